@@ -91,6 +91,13 @@ CHECKS = {
         "trusted: DuckDB engine calls are atomic at this granularity and fetch* is thread-local (probe p20); races inside DuckDB and unsynchronised Python-level sharing below engine-call granularity are not reached (module-level mutable objects are listed in evidence as scheduler blind spots); free-running runs are supplementary and never a verdict",
         "stateless model checking of the real threads (iterative context bounding, CHESS-style) with a serial-order differential oracle",
     ),
+    "C18": (
+        "E4-crash",
+        "fault_enumeration",
+        "trie of statement histories (DDL with comments/lengths, DML, MERGE, CREATE DATABASE + objects in it, BEGIN/COMMIT/ROLLBACK) up to the depth bound; per history four exit modes (clean with, exception in the body, sys.exit, os._exit) and one SIGKILL before every engine call of the last statement plus one right after it returned, each in a fresh interpreter on its own db_path directory; after reopening with a new patch() the raw-DuckDB catalog+data+side tables must equal what an independent connection saw as committed before exit, respectively the clean-exit observation of the history without or with the interrupted statement; in-memory control run in an empty cwd/HOME/TMPDIR",
+        "trusted: SIGKILL keeps the page cache (no power-loss model); one DuckDB engine call is atomic thanks to its WAL; the reference observations come from clean exits of the same implementation, themselves checked against the pre-exit committed view",
+        "exhaustive crash-point (fault) enumeration over all engine-call boundaries of all histories within the depth bound, with a differential committed-state oracle",
+    ),
 }
 
 NOT_BUILT = "check not built yet in this round (planned per DESIGN.md §3); no claim is made"
